@@ -441,7 +441,10 @@ def run_property(prop, tier, seed, t0):
         only = None
         if isinstance(script, (tuple, list)):
             script, only = script
-        e = run_enum(script, tier, seed)
+        try:
+            e = run_enum(script, tier, seed)
+        except Exception as ex:      # a script that cannot run on this tree: an error of the check (exit 3 unless something else is violated), the others still run
+            e = dict(name=script.split()[0], cases=0, failures=[], error="crashed: %s" % str(ex)[-600:])
         if only is not None:
             e["failures"] = [f for f in e.get("failures", []) if any(f["obligation"].startswith(p) for p in only)]
             e["restricted_to"] = list(only)
